@@ -180,7 +180,7 @@ def check_cont(case):
                         bucket = "spacing"
                 else:
                     r = arr[1:] / arr[:-1]
-                    ratio = (bf / af) ** (1.0 / (n_i - 1))
+                    ratio = (bf / af) ** (1.0 / (n_i - 1)) if af > 0 else float("nan")
                     # a bool bound makes jnp.log work in float32 (bool is not a floating type);
                     # such grids are only held to float32 accuracy
                     rtol = 1e-5 if f32 else 1e-9
@@ -192,13 +192,16 @@ def check_cont(case):
         # has magnitude below 1e-300, so that the arithmetic touches the subnormal range, which
         # XLA on CPU flushes to zero
         tiny = 2.2250738585072014e-308
-        if n_i == 1:
-            exact = [af]
-        elif case["cls"] == "lin":
-            exact = [af + i * ((bf - af) / (n_i - 1)) for i in range(n_i)]
-        else:
-            la, lb = math.log(af), math.log(bf)
-            exact = [math.exp(la + i * ((lb - la) / (n_i - 1))) for i in range(n_i)]
+        try:
+            if n_i == 1:
+                exact = [af]
+            elif case["cls"] == "lin":
+                exact = [af + i * ((bf - af) / (n_i - 1)) for i in range(n_i)]
+            else:
+                la, lb = math.log(af), math.log(bf)
+                exact = [math.exp(la + i * ((lb - la) / (n_i - 1))) for i in range(n_i)]
+        except (ValueError, OverflowError, ZeroDivisionError):
+            exact = []
         if any(0 < abs(x) < 1e-300 for x in exact):
             bucket = "subnormal_nodes"
     return msgs, n_i >= 3, "accepted", bucket
